@@ -107,6 +107,7 @@ def render(a):
     seps = (" ", "  ", "\t", "     ")
     comments = ("# comment", "#", "# D0{K-,pi+} 2 1 0 2 0 0", "#EventType x y")
     out = []
+    ends_in_comment = False
     if nxt(4) == 0:
         out.append("")
     for item in a["items"]:
@@ -136,11 +137,18 @@ def render(a):
             line = item["a"] + sep + "=" + sep + item["b"]
         else:
             raise ValueError(k)
+        ends_in_comment = False
         if nxt(6) == 0 and a.get("layout"):
             line += sep + comments[nxt(len(comments))]
+            ends_in_comment = True
+        if a.get("layout") and nxt(5) == 0:
+            line = ("  ", "\t", "    ", " \t")[nxt(4)] + line  # indentation
         out.append(line)
     nl = "\r\n" if a.get("crlf") else "\n"
-    return nl.join(out) + nl
+    text = nl.join(out) + nl
+    if a.get("nofinal") and ends_in_comment:
+        text = text[: -len(nl)]  # a comment may end the text without a line terminator
+    return text
 
 
 def ref_expand(tree, lines):
